@@ -62,6 +62,13 @@ def gen_text(rng, ascii_only=False, latin1=False, codec=None):
              "NULL. -999.25 : n", "COMP. %s : company" % w(), "~Curve", "DEPT.M : " + w(), "GR.GAPI : " + w(), "~Params", "P1. %s : %s" % (w(), w()),
              "~Other", w() + " " + w(), "~ASCII"]
     lines += ["%d.0 %d.5" % (i + 1, 10 * i) for i in range(n + 1)]
+    if rng.random() < 0.3:       # blank lines directly after title lines
+        out = []
+        for ln in lines:
+            out.append(ln)
+            if ln.startswith("~") and rng.random() < 0.5:
+                out.append("")
+        lines = out
     return "\n".join(lines) + "\n"
 
 
@@ -80,10 +87,12 @@ def channels(run, tmp):
         codec, arg = encs[n % len(encs)]
         text = gen_text(run.rng, latin1=codec in ("latin-1", "cp1252"), codec=codec)
         ref = canon(lasio.read(io.StringIO(text)))
-        for nl in ("\n", "\r\n", "\r"):
+        for nl in ("\n", "\r\n", "\r", "mixed"):
             path = os.path.join(tmp, "c%d.las" % n)
+            if nl == "mixed":       # LF and CRLF line ends in one file (concatenated exports)
+                mixed = "".join(ln + run.rng.choice(["\n", "\r\n"]) for ln in text.split("\n")[:-1])
             with open(path, "w", encoding=codec, newline="") as f:
-                f.write(text.replace("\n", nl))
+                f.write(text.replace("\n", nl) if nl != "mixed" else mixed)
             kw = {"encoding": arg} if arg else {}
             deliveries = [("str-path", lambda: lasio.read(path, **kw)), ("Path", lambda: lasio.read(pathlib.Path(path), **kw))]
 
@@ -98,7 +107,10 @@ def channels(run, tmp):
                     f.readline()
                     return lasio.read(f)
             deliveries.append(("file-object-after-readline", via_fileobj_positioned))
-            if nl != "\r":
+            if nl == "mixed":
+                deliveries.append(("StringIO", lambda: lasio.read(io.StringIO(mixed))))
+                deliveries.append(("string", lambda: lasio.read(mixed)))
+            elif nl != "\r":
                 deliveries.append(("StringIO", lambda: lasio.read(io.StringIO(text.replace("\n", nl)))))
                 deliveries.append(("string", lambda: lasio.read(text.replace("\n", nl))))
 
@@ -124,6 +136,8 @@ def channels(run, tmp):
                 deliveries.append(("StringIO-just-written", via_written_buffer))
             for name, fn in deliveries:
                 case = {"channel": name, "codec": codec, "newline": repr(nl), "text": text}
+                if nl == "mixed":
+                    case["mixed"] = mixed
                 run.case(case, nontrivial=(not text.isascii()) or nl != "\n", tags=["channel=" + name, "codec=" + codec, "nl=" + repr(nl)])
                 try:
                     res = fn()
@@ -296,6 +310,13 @@ def pool_texts(run):
         ncur = sum(1 for i, l in enumerate(rows) if rows.index("~Curve") < i < rows.index("~Params"))
         text = "~Version\nVERS. 2.0 : v\nWRAP. NO : w\n" + "\n".join(rows) + "\n~ASCII\n" + " ".join(str(j + 1) for j in range(ncur)) + "\n"
         texts.append(text)
+    # the same line text in sections of different kinds (in two texts, and within one): the split depends on the section
+    for line in ("LOC .   BLOCK 7: NORTH FLANK : LOCATION", "TIME . 12:30:15 : logging time: start", "RUN . 1 : a: b :c", "Cond..MS/M : x : y"):
+        head = "~Version\nVERS. 2.0 : v\nWRAP. NO : w\n~Well\nSTRT.M 1.0 : s\nSTOP.M 2.0 : s\nSTEP.M 1.0 : s\nNULL. -999.25 : n\n"
+        texts.append(head + line + "\n~Curve\nDEPT.M : d\n~Params\nP. 1 : p\n~ASCII\n1\n")
+        texts.append(head + "~Curve\nDEPT.M : d\n~Params\n" + line + "\n~ASCII\n1\n")
+        texts.append(head + "~Curve\nDEPT.M : d\n" + line + "\n~Params\nP. 1 : p\n~ASCII\n1 2\n")
+        texts.append(head + line + "\n~Curve\nDEPT.M : d\n~Params\n" + line + "\n~ASCII\n1\n")
     root = os.path.join(fw.REPO, "tests", "examples")
     for b, _, files in sorted(os.walk(root)):
         for fn in sorted(files):
@@ -393,6 +414,25 @@ def replay(run, payload):
         try:
             text, codec, nl = c["text"], c["codec"], eval(c["newline"])
             path = os.path.join(tmp, "r.las")
+            if nl == "mixed":
+                with open(path, "w", encoding=codec, newline="") as f:
+                    f.write(c["mixed"])
+                kw = {} if codec == "utf-8-sig" else {"encoding": codec}
+                ref = canon(lasio.read(io.StringIO(text)))
+                if c["channel"] == "file-object":
+                    with open(path, "r", encoding=codec) as f:
+                        return canon(lasio.read(f)) == ref
+                if c["channel"] == "file-object-after-readline":
+                    with open(path, "r", encoding=codec) as f:
+                        f.readline(); f.readline()
+                        return canon(lasio.read(f)) == ref
+                if c["channel"] == "Path":
+                    return canon(lasio.read(pathlib.Path(path), **kw)) == ref
+                if c["channel"] == "str-path":
+                    return canon(lasio.read(path, **kw)) == ref
+                if c["channel"] == "StringIO":
+                    return canon(lasio.read(io.StringIO(c["mixed"]))) == ref
+                return canon(lasio.read(c["mixed"])) == ref
             with open(path, "w", encoding=codec, newline="") as f:
                 f.write(text.replace("\n", nl))
             kw = {} if codec == "utf-8-sig" else {"encoding": codec}
